@@ -105,7 +105,15 @@ func viewOf(d *meta.Data) *histView {
 	for _, k := range idKinds {
 		v.ids[k] = map[uint64]bool{}
 	}
+	// one id space for data, meta and sql nodes: a node that registers in a second role under the
+	// same TCP address keeps its id (CreateDataNode / CreateMetaNode look the other table up)
 	for _, n := range d.DataNodes {
+		v.ids["node"][n.ID] = true
+	}
+	for _, n := range d.MetaNodes {
+		v.ids["node"][n.ID] = true
+	}
+	for _, n := range d.SqlNodes {
 		v.ids["node"][n.ID] = true
 	}
 	for dbk, db := range d.Databases {
@@ -141,13 +149,13 @@ func viewOf(d *meta.Data) *histView {
 }
 
 // replacesCatalogue: command kinds that install a catalogue built elsewhere.
-func replacesCatalogue(kind string) bool { return kind == "SetData" || kind == "RecoverMetaData" }
+func ReplacesCatalogue(kind string) bool { return kind == "SetData" || kind == "RecoverMetaData" }
 
 // Observe is called after every applied command with the catalogue as it is now.
 func (h *History) Observe(d *meta.Data, kind string) []HistFinding {
 	h.step++
 	cur := viewOf(d)
-	if h.prev == nil || replacesCatalogue(kind) {
+	if h.prev == nil || ReplacesCatalogue(kind) {
 		h.reset(cur)
 		return nil
 	}
